@@ -38,7 +38,67 @@ def run(prog, an, rep):
     rep.run_rules(prog, an, [
         lookup_rules, ranking_rules, outcome_table, early_exits,
         bypass_helper, exception_families, build_gate, pushed_before_lookup,
-        integration_vector])
+        integration_vector, tips_refreshed, per_author])
+
+
+def per_author(prog, an, rep):
+    common.per_author_options(prog, an, rep, 'C06')
+
+
+def tips_refreshed(prog, an, rep):
+    """update_integration_branches re-merges (target, predecessor) into
+    every integration branch on every evaluation: that is what makes a
+    moved source OR target produce a new tip (hence NOTSTARTED)."""
+    R = 'C06.MPT.tips-refreshed'
+    f = need_func(an, GWF + '.integration.update_integration_branches')
+    u = f.nested.get('update')
+    if u is None:
+        raise AnalysisError('anchor-missing update helper in ' + f.qname)
+    c = an.cfg(u)
+    helpers = ('bert_e.workflow.git_utils.consecutive_merge',
+               'bert_e.workflow.git_utils.robust_merge')
+    done = []
+    n = 0
+    for nd in c.nodes.values():
+        if nd.kind != 'stmt':
+            continue
+        for x in ast.walk(nd.ast):
+            if isinstance(x, ast.Call):
+                cal = prog.callee(u, x)
+                if cal[0] == 'func' and cal[1] in helpers:
+                    n += 1
+                    done += c.done_of(nd)
+                    args = [src(a) for a in x.args]
+                    w, s_ = u.params[0], u.params[1]
+                    rep.check(args == [w, w + '.dst_branch', s_], R,
+                              u.qname + ': merges the target and the '
+                              'predecessor into the integration branch',
+                              u.where(x), 'merge helper called with %s' %
+                              args)
+    rep.floor('C06 merge helper calls in update()', n, 2)
+    rep.evaluated()
+    ok, path = c.must_pass(done, c.exit, use_exc=False)
+    rep.check(ok, R, u.qname + ': every normal return has re-merged target '
+              'and predecessor', u.where(), 'update() can return without '
+              'merging: a moved target (or source) leaves the old tip and '
+              'its stale build status in place', path=c.describe_path(path))
+    # and it is applied to every child, chained
+    cf = an.cfg(f)
+    calls = [x for x in prog.calls_in(f)
+             if prog.callee(f, x) == ('func', u.qname)]
+    loops = [lp for lp in walk_local(f.node, include_root=False)
+             if isinstance(lp, ast.For) and any(
+                 x in calls for x in ast.walk(lp))]
+    ok = len(calls) == 1 and len(loops) == 1 and \
+        'children' in src(loops[0].iter) and \
+        [src(a) for a in calls[0].args] == [
+            [t.id for t in ast.walk(loops[0].target)
+             if isinstance(t, ast.Name)][-1], 'prev']
+    rep.evaluated()
+    rep.check(ok, R, f.qname + ': update(branch, prev) for every later '
+              'integration branch', f.where(), 'update is applied as %s in '
+              '%s' % ([src(x) for x in calls],
+                      [src(lp.iter) for lp in loops]))
 
 
 def bypass_helper(prog, an, rep):
